@@ -310,11 +310,14 @@ func runC13(c *Ctx) {
 				// (or on which a boolean parameter that the call chain binds to `type == tsa` is false)
 				cond: func(in *c13Inst) EdgeSel {
 					var ps []func(string) bool
-					if t := in.local(gTypeP); t != "" {
+					// (as this function sees it: a parameter, a captured variable, or a field of a parameter object — c13Inst.locals)
+					for _, t := range in.locals(gTypeP) {
 						ps = append(ps, pre("NE("+t+fmt.Sprintf(",const:%q)", tsaC)))
 					}
-					if b := in.local("(" + gTypeP + fmt.Sprintf(" == const:%q)", tsaC)); b != "" && in.parent != nil {
-						ps = append(ps, pre("F("+b+")"))
+					for _, b := range in.locals("(" + gTypeP + fmt.Sprintf(" == const:%q)", tsaC)) {
+						if in.parent != nil {
+							ps = append(ps, pre("F("+b+")"))
+						}
 					}
 					if len(ps) == 0 {
 						return never
@@ -361,6 +364,9 @@ func runC13(c *Ctx) {
 		e, ok := v.(*ssa.Extract)
 		return ok && entryCall != nil && e.Tuple == ssa.Value(entryCall) && e.Index == 0
 	}
+	// an accepted source of an append: the certificates of the entry, in bulk or element by element (extra_c13.go, third pass (2):
+	// an element of the slice read from the entry's file comes from that file)
+	okSrc := func(v ssa.Value) bool { return isCerts(v) || c13ElemsOfCerts(v, isCerts) }
 	okApp, nApp := true, 0
 	for _, ci := range allCalls(AF) {
 		call, ok := ci.(*ssa.Call)
@@ -369,7 +375,7 @@ func runC13(c *Ctx) {
 		}
 		if bi, ok := call.Call.Value.(*ssa.Builtin); ok && bi.Name() == "append" && strings.Contains(call.Type().String(), "x509.Certificate") {
 			nApp++
-			if !isCerts(call.Call.Args[1]) {
+			if !okSrc(call.Call.Args[1]) {
 				okApp = false
 			}
 		}
@@ -384,14 +390,17 @@ func runC13(c *Ctx) {
 			okRet, retWhy = false, "a success exit returns something else: "+acc.bad
 		}
 		for _, a := range acc.appends {
-			if !isCerts(a.Call.Args[1]) {
+			if !okSrc(a.Call.Args[1]) {
 				okRet, retWhy = false, "the returned slice was appended from "+trunc(desc(a.Call.Args[1]), 200)
 			}
 		}
-		if !acc.grows(loop, isCerts) {
+		if !acc.grows(AF, loop, isCerts) {
 			grows = false
 		}
 	}
+	// nothing is left out: every completed iteration hands the certificates of its entry on to the accumulator (in bulk, or one by one
+	// in a loop over all of them that cannot be left early — c13Acc.grown)
+	c.Check(grows, "exact-set/every-entry-added", "every completed iteration adds all the certificates of its entry to the result", lsite, "an iteration can complete without adding (all of) the certificates it read")
 	c.Check(okRet, "exact-set/returns-accumulated", "success exits return exactly the accumulated slice (nothing cached or taken from elsewhere; it starts empty)", site, retWhy)
 	// non-empty result. Either the returned slice is tested, or — equivalent, because every completed iteration appends the
 	// certificates of its entry (grows), each entry has at least one (entry/at-least-one-certificate) and the loop cannot be
